@@ -43,9 +43,11 @@ void pmc_run(const char* config) {
     kind = config[0];
     SL = new spinlock; TL = new ticket_spinlock; QL = new qspinlock;
     std::vector<std::string> progs; std::string cur;
-    for (const char* c = config + 2;; c++) { if (*c == '|' || *c == 0) { progs.push_back(cur); cur.clear(); if (!*c) break; } else cur += *c; }
+    bool tso = strstr(config, ":tso") != nullptr;
+    for (const char* c = config + 2;; c++) { if (*c == '|' || *c == 0 || *c == ':') { progs.push_back(cur); cur.clear(); if (*c != '|') break; } else cur += *c; }
     pmc_window(0);
     mv_init();
+    mv_tso(tso);
     pmc_window(1);
     std::vector<pthread_t> ts;
     for (size_t i = 0; i < progs.size(); i++) { std::string p = progs[i]; int id = i; ts.push_back(mvp::spawn_os([id, p] { body(id, p); }, "os")); }
@@ -66,6 +68,9 @@ static const PmcConfig CFG[] = {
     {"q:L|L",      3, {4,8}, {0,0}, {0,0}, {0,0}, ""},
     {"q:LL|LY",    3, {3,5}, {0,0}, {0,0}, {0,0}, ""},
     {"q:L|L|L",    3, {2,4}, {0,0}, {0,0}, {0,0}, ""},
+    {"s:LL|LY:tso", 3, {2,3}, {0,0}, {1,2}, {3,4}, "store-buffer mode (x86-TSO)"},
+    {"t:LL|L:tso",  3, {2,3}, {0,0}, {1,2}, {3,4}, ""},
+    {"q:LL|LY:tso", 3, {2,3}, {0,0}, {1,2}, {3,4}, ""},
 };
 const PmcConfig* pmc_configs(int* n) { *n = sizeof CFG / sizeof CFG[0]; return CFG; }
 const char* pmc_property(void) { return "C01"; }
